@@ -1,16 +1,18 @@
 """C08 — Timers never fire early, twice, or after a successful cancel (DESIGN §7 C08)."""
 import os, json
-from vlib.core import Ctx, ddmin, ModelBuildError
+from vlib.core import Ctx, ddmin, ModelBuildError, load_known_findings
 
 ID = "C08"
 MODULES = ["IoraModel.Props.C08"]
 OBLIGATIONS = [
     {"id": "C08_G_wheel", "theorem": "Iora.C08.G_wheel_shapes", "kind": "proved",
-     "statement": "Gen conformance: schedule re-tests _accepting under _wheelMutex (F32); collectFromBucket re-inserts when deadline-now > tick (F21); bucket loops walk a detached vector (F22); cascade/drain fire on deadline <= now"},
+     "statement": "Gen conformance: schedule re-tests _accepting under _wheelMutex (F32); collectFromBucket re-inserts when deadline-now > tick (F21); bucket loops walk a detached vector (F22); cascade/drain fire on deadline <= now; schedule/cancel/reschedule/advance/start/drain/clearAllEntries/reset/pendingCount take _wheelMutex before their first state access and hold it over all of them; callbacks fire outside the lock"},
     {"id": "C08_W6", "theorem": "Iora.C08.W6_lifecycle_order", "kind": "proved",
      "statement": "Gen conformance: stop()/drain() clear _accepting, join the tick thread, then clear/collect entries"},
     {"id": "C08_W0", "theorem": "Iora.C08.W0_levels_in_range", "kind": "proved",
      "statement": "every reachable wheel has one tick counter per level and every entry on an existing level"},
+    {"id": "C08_W0m", "theorem": "Iora.C08.W0_mask_is_mod", "kind": "proved",
+     "statement": "for a geometry the constructor accepts (tick > 0, slots a power of two, levels > 0) the model's `% slots` is the code's `& _tickMask`"},
     {"id": "C08_W1", "theorem": "Iora.C08.W1_conservation", "kind": "proved",
      "statement": "for every op list: pending ids + ids that left (fired/cancelled/drained/cleared) = issued ids as multisets, issued ids distinct"},
     {"id": "C08_W1b", "theorem": "Iora.C08.W1_fires_at_most_once", "kind": "proved",
@@ -36,7 +38,7 @@ OBLIGATIONS = [
     {"id": "C08_W7_F32", "theorem": "Iora.C08.W7_without_retest_witness", "kind": "proved", "finding": "F32",
      "statement": "on record: without the re-test a schedule exists that leaves an accepted entry in the stopped wheel"},
     {"id": "C08_G_service", "theorem": "Iora.C08.G_service_shapes", "kind": "proved",
-     "statement": "Gen conformance: re-tests under _mutex, cancel/collect under _mutex, erase before hand-over, pre-announce under lock, drain restore under lock, stop() clears _accepting and publishes Stopped under lock (F23), periodic cancel guard (F41) closed by cancel() unconditionally (not only on the !entry.canceled transition)"},
+     "statement": "Gen conformance: re-tests under _mutex, cancel/collect under _mutex, erase before hand-over, pre-announce under lock, drain restore under lock, stop() clears _accepting and publishes Stopped under lock (F23), periodic cancel guard (F41) closed by cancel() unconditionally (not only on the !entry.canceled transition); every section the model treats as atomic takes _mutex first and holds it over its accesses; handlers run outside _mutex; `_accepting = true` only inside the braces of the CAS Draining->Running"},
     {"id": "C08_S1", "theorem": "Iora.C08.S1_collected_exactly_once", "kind": "proved",
      "statement": "for every list of atomic steps: started + skipped-by-cancel + waiting = collected (multisets); no (id, firing) collected or started twice"},
     {"id": "C08_S2", "theorem": "Iora.C08.S2_collected_is_due", "kind": "proved",
@@ -47,6 +49,10 @@ OBLIGATIONS = [
      "statement": "on record: with the guard closed only on the `!entry.canceled` transition, a drain sweep followed by cancel(P)=true lets P's waiting invocation start"},
     {"id": "C08_S3b", "theorem": "Iora.C08.S3_false_means_not_pending", "kind": "proved",
      "statement": "cancel = false => no live record and no periodic entry of the id"},
+    {"id": "C08_S3b_refuted", "theorem": "Iora.C08.C08_S3b_refuted", "kind": "refuted", "finding": "FC08a",
+     "statement": "the full clause `cancel = false on a Running service => collected or cancelled with true` (C08_S3b_statement) is FALSE: a drain(ms>0) that sweeps and then times out restores Running after cancelling far-future one-shots and marking every periodic entry"},
+    {"id": "C08_S3b_partial", "theorem": "Iora.C08.C08_S3b_partial", "kind": "partial", "of": "Iora.C08.C08_S3b_statement",
+     "statement": "without a drain(ms>0) sweep in the history (noSweep): an issued one-shot id for which cancel answers false was collected or cancelled by a cancel that answered true"},
     {"id": "C08_S3c", "theorem": "Iora.C08.S3_record_accounting", "kind": "proved",
      "statement": "collect: every record stays, is handed over (live) or was cancelled (dropped)"},
     {"id": "C08_S3d", "theorem": "Iora.C08.S3_other_steps_keep_records", "kind": "proved", "statement": "no step other than collect removes a record"},
@@ -56,6 +62,8 @@ OBLIGATIONS = [
      "statement": "after stop() returned, for every continuation: no handler starts, state stays Stopped, never accepting (S6)"},
     {"id": "C08_S4c", "theorem": "Iora.C08.S4_stop_waits_for_handlers", "kind": "proved",
      "statement": "stop() returns only after the loop thread exited with nothing collected left to run"},
+    {"id": "C08_S4d", "theorem": "Iora.C08.S4_after_drain_nothing_starts", "kind": "proved",
+     "statement": "after a successful drain, for every continuation, no handler ever starts"},
     {"id": "C08_S5a", "theorem": "Iora.C08.S5_heap_order", "kind": "proved",
      "statement": "the heap of every reachable state is in heap order for less(tp,id): siftUp/siftDown/heapPop preserve it, the root is a minimum"},
     {"id": "C08_S5b", "theorem": "Iora.C08.S5_no_due_record_left", "kind": "proved",
@@ -64,6 +72,22 @@ OBLIGATIONS = [
 ]
 ANCHOR_FILES = ["include/iora/core/timing_wheel.hpp", "include/iora/core/timer.hpp"]
 NS = 1000000
+
+FINDING_FC08A = "drain-timeout-sweep-drops-schedules"
+
+
+def known_keys():
+    keys = {d.get("key") for d in load_known_findings() if d.get("kind") == "finding" and d.get("property") == ID}
+    extra = os.environ.get("VERIF_KNOWN_FINDINGS_EXTRA")
+    if extra and os.path.exists(extra):
+        import re
+        for l in open(extra):
+            if l.startswith("finding:") and "property=%s" % ID in l:
+                m = re.search(r"key=(\S+)", l)
+                if m:
+                    keys.add(m.group(1))
+    return keys
+
 
 GEOMETRIES = [(10, 8, 2), (1, 4, 3), (5, 16, 1), (20, 8, 2), (10, 64, 2), (1000, 256, 4), (3, 2, 4), (7, 1, 2), (2, 4, 2)]
 
@@ -199,7 +223,7 @@ def boundary_cases():
     # (witnesses of F21 / F22 / F32 live in corpus/C08/*.json and always run first)
     # level boundaries on every geometry
     for (t, s, l) in GEOMETRIES:
-        ops = ["reset %d %d %d" % (t, s, l), "start"]
+        ops = ["reset %d %d %d" % (t, s, l), "start", "vclock"]
         for j in range(0, l + 1):
             for d in (-1, 0, 1):
                 ops.append("sched %d" % (t * (s ** j) + d))
@@ -243,6 +267,9 @@ def monitor_wheel(c, impl):
             break
         if ans == "bad-op":
             continue
+        if ans == "clock-not-interposed":
+            bad.append("W0: the wheel does not read the virtual clock (harness interposition broken)")
+            break
         if (t[0] in ("adv", "drain") and "f=" not in ans) or (t[0] in ("sched", "pending") and not ans.lstrip("-").isdigit()):
             bad.append("W0: malformed answer: %s -> %s" % (op, ans))
             break
@@ -376,6 +403,8 @@ def gen_svc_case(rng, idx):
     """ops for harness/c08_svc.cpp: the real TimerService with its loop thread parked in epoll_wait between `wake`s"""
     if rng.chance(1, 8):
         return gen_svc_sweep_case(rng, idx)
+    if rng.chance(1, 7):
+        return gen_svc_stop_case(rng, idx)
     style = rng.below(7)     # 0-2 mixed, 3 heap stress (many timers, ties), 4 gates + concurrent cancel/schedule, 5 small limits, 6 drains
     if style == 5:
         lim = (rng.range(1, 4), rng.range(0, 2), rng.choice([50, 5, 86400000]))
@@ -430,7 +459,7 @@ def gen_svc_case(rng, idx):
             # drain(ms) on a helper thread: gate, sweep, wait; it completes / times out / keeps waiting as the clock and the loop go on
             j = rng.below(10)
             if j < 5:
-                ops.append("drain %d" % rng.choice([1, 2, 3, 5, 10, 20, 50, 1000, 5000]))
+                ops.append("drain %d" % rng.choice([0, 1, 2, 3, 5, 10, 20, 50, 1000, 5000]))
             elif j < 8:
                 ops.append("dwait")
             else:
@@ -502,6 +531,76 @@ def gen_svc_sweep_case(rng, idx):
     return {"cat": "svc-sweep", "ops": ops, "idx": idx, "style": 7, "limits": [10000, 1000, 86400000], "kind": "svc"}
 
 
+def gen_svc_stop_case(rng, idx):
+    """stop() on a helper thread (flag, halt, join, publish) against the single-stepped loop thread: its internal drain(5000) completing
+    or timing out, the exit branch of the loop collecting and running what is due, a drain() on a third thread held just before its
+    restore section while stop() completes, schedule/cancel/drain/stop after stop() has returned"""
+    ops = ["reset 10000 1000 86400000"]
+    clk = 0
+    pat = rng.below(6)
+    n_noise = rng.below(3)
+    for _ in range(n_noise):
+        ops.append(rng.choice(["at %d n" % (rng.range(1, 40) * MS), "at %d n" % (rng.range(5200, 9000) * MS), "at %d n" % (rng.range(100, 4000) * MS),
+                               "per %d n" % (rng.choice([700, 1300, 2500]) * MS)]))
+    if pat == 0:
+        # idle (or nearly idle) service
+        if rng.chance(1, 2):
+            clk += rng.range(0, 50) * MS
+            ops += ["clk %d" % clk, "wake"]
+        ops += ["stop", "swait", "wake", "swait"]
+    elif pat == 1:
+        # a handler is running while stop() drains; it ends, the drain completes, the loop exits on the next pass
+        ops += ["at %d g" % (clk + MS), "clk %d" % (clk + MS), "wake", "stop", "swait"]
+        clk += MS
+        if rng.chance(1, 2):
+            ops.append("cancel %d" % rng.range(1, n_noise + 1))
+        ops += ["release", "swait", "wake", "swait"]
+    elif pat == 2:
+        # the internal drain(5000) times out behind a running handler; a timer inside the drain window is due by then: the exit branch
+        # of the loop collects and runs it after the handler has returned
+        t1 = clk + rng.choice([1, 2, 5]) * MS
+        t2 = t1 + rng.range(1, 4500) * MS
+        ops += ["at %d g" % t1, "at %d %s" % (t2, rng.choice(["n", "n", "g"])), "at %d n" % (t1 + rng.range(5100, 8000) * MS), "clk %d" % t1, "wake", "stop"]
+        clk = t1 + 5000 * MS + rng.choice([0, 1, MS, 700 * MS])
+        ops += ["clk %d" % clk, "swait", "release", "release", "swait", "wake"]
+    elif pat == 3:
+        # a live timer inside the window, no handler running: the loop collects it after epoll_wait, the drain completes, stop() halts the
+        # loop, the next pass takes the exit branch
+        t1 = clk + rng.range(1, 3000) * MS
+        ops += ["at %d n" % t1, "stop", "clk %d" % t1, "wake", "swait", "wake", "swait"]
+        clk = t1
+    elif pat == 4:
+        # drain() on another thread times out and is held just before its restore section; stop() runs to the end; then the restore
+        ms = rng.choice([1, 5, 20])
+        t1 = clk + MS
+        ops += ["at %d g" % t1, "clk %d" % t1, "wake", "drain %d park" % ms]
+        clk = t1 + ms * MS + rng.choice([0, MS])
+        ops += ["clk %d" % clk, "dwait", "stop", "swait", "release", "swait", "dgo", "dwait"]
+    else:
+        # a drain() is waiting when stop() is called: stop() skips its own drain
+        t1 = clk + MS
+        ops += ["at %d g" % t1, "clk %d" % t1, "wake", "drain %d" % rng.choice([0, 50, 5000]), "stop", "swait", "release", "swait", "dwait"]
+        clk = t1
+    # after stop() has returned: everything is refused, nothing runs
+    for _ in range(rng.range(1, 5)):
+        k = rng.below(6)
+        if k == 0:
+            ops.append("at %d n" % (clk + rng.range(0, 5) * MS))
+        elif k == 1:
+            ops.append("per %d n" % (rng.range(1, 5) * MS))
+        elif k == 2:
+            ops.append("cancel %d" % rng.range(1, 4))
+        elif k == 3:
+            clk += rng.range(1, 9000) * MS
+            ops += ["clk %d" % clk, "wake"]
+        elif k == 4:
+            ops.append("drain %d" % rng.choice([0, 5]))
+        else:
+            ops.append("stop")
+    ops += ["release", "dwait", "swait", "inflight"]
+    return {"cat": "svc-stop", "ops": ops, "idx": idx, "style": 8, "limits": [10000, 1000, 86400000], "kind": "svc"}
+
+
 def gen_svc_winddown(c, impl_so_far=None):
     return c
 
@@ -510,6 +609,8 @@ def svc_boundary_cases():
     cs = []
     # (witnesses of F41 live in corpus/C08/*.json)
     # cancel versus collect for a one-shot: collected behind a gate => cancel answers false and the handler runs once
+    cs.append({"cat": "svc-vclock", "kind": "svc", "limits": [10000, 1000, 86400000],
+               "ops": ["reset 10000 1000 86400000", "vclock", "clk 5000000", "vclock", "at 1000000 n", "wake", "vclock", "inflight"]})
     cs.append({"cat": "svc-cancel-collect", "kind": "svc", "limits": [10000, 1000, 86400000],
                "ops": ["reset 10000 1000 86400000", "at 1000000 g", "at 1000000 n", "at 2000000 n", "clk 1000000", "wake", "cancel 2", "cancel 3", "release", "clk 5000000", "wake", "inflight"]})
     # heap order with ties and many entries
@@ -528,16 +629,23 @@ def svc_boundary_cases():
 
 def monitor_svc(c, impl):
     """safety monitor on the implementation's own answers (never early / at most once / not after a successful cancel /
-    cancel=false => runs exactly once / nothing lost), knowing only the generated ops"""
+    cancel=false => runs exactly once / nothing lost / nothing after stop() / a Stopped service refuses), knowing only the generated
+    ops.  A failure that falls under the recorded finding FC08a (a drain(ms>0) that sweeps and then times out has destroyed
+    schedules of a service that is Running again) is returned with the prefix `FC08a:`; the caller counts it under the finding if
+    that is listed in KNOWN_FINDINGS.txt and reports it as a violation otherwise."""
     bad = []
     clk = 0
     info = {}          # id -> dict(periodic, tp | (t0, iv), kind)
     starts = {}        # id -> number of starts
     cancelled_ok = {}  # id -> True once cancel answered true
     cancel_false = set()
-    swept = set()      # one-shot ids a drain(ms) sweep cancelled (tp beyond clock + ms at the sweep)
+    swept = set()      # one-shot ids a drain(ms>0) sweep of a user drain cancelled (tp beyond clock + ms at the sweep)
+    swept_per = set()  # periodic ids alive at such a sweep (their entries are marked: at most one more firing)
+    stop_swept = set() # ids swept (one-shot) or marked (periodic) by the drain(5000) inside stop(): stop() may cancel
     blocked = False
-    limits = c.get("limits", [10000, 1000, 86400000])
+    life = "R"
+    stop_returned = False
+    lost_after_restore = False
 
     def on_events(evs, now):
         nonlocal blocked
@@ -549,9 +657,11 @@ def monitor_svc(c, impl):
                     continue
                 starts[i] = starts.get(i, 0) + 1
                 d = info[i]
+                if stop_returned:
+                    bad.append("S4: handler of timer %d starts after stop() returned" % i)
                 if cancelled_ok.get(i):
                     bad.append("S3: handler of timer %d starts after cancel(%d) returned true" % (i, i))
-                if i in swept:
+                if i in swept or (i in stop_swept and not d["periodic"]):
                     bad.append("S3: handler of timer %d starts after a drain() sweep had cancelled it" % i)
                 if d["periodic"]:
                     due = d["t0"] + starts[i] * d["iv"]
@@ -581,21 +691,49 @@ def monitor_svc(c, impl):
         elif i in info and not cancelled_ok.get(i):
             cancel_false.add(i)
 
-    for op, ans in zip(c["ops"], impl):
+    def sweep(ms, into, into_per):
+        horizon = clk + ms * MS
+        for i, d in info.items():
+            if cancelled_ok.get(i):
+                continue
+            if d["periodic"]:
+                into_per.add(i)
+            elif starts.get(i, 0) == 0 and d["tp"] > horizon:
+                into.add(i)
+
+    last_collect_clk = None
+    last_collect_idx = None
+    sched_idx = {}
+    for k, (op, ans) in enumerate(zip(c["ops"], impl)):
         t = op.split()
         if ans.startswith("crash:") or ans.startswith("throw") or ans == "hang":
             bad.append("S0: the service crashes/throws/hangs: %s -> %s" % (op, ans))
             return bad
         if ans in ("bad-op", "busy", "idle"):
             continue
+        if ans == "clock-not-interposed":
+            bad.append("S0: the service does not read the virtual clock (harness interposition broken)")
+            return bad
         head = ans.split()[0]
+        prev_life = life
+        m = [x for x in ans.split() if x.startswith("life=")]
+        acc = [x for x in ans.split() if x.startswith("acc=")]
+        if m:
+            life = m[0][5:]
+            if life == "S" and acc and acc[0] == "acc=1":
+                bad.append("S6: the service is Stopped and accepting (a later schedule is accepted and can never fire): %s -> %s" % (op, " ".join(ans.split()[-4:])))
+            if life == "R" and prev_life == "D" and (swept or swept_per) and not stop_returned:
+                lost_after_restore = True
         if t[0] == "clk":
             clk = int(t[1])
         elif t[0] in ("at", "per"):
             i = int(head)
             if i != 0:
+                if stop_returned:
+                    bad.append("S6: %s after stop() returned was accepted (id %d): it can never fire" % (t[0], i))
                 if i in info:
                     bad.append("S1: id %d issued twice" % i)
+                sched_idx[i] = k
                 if t[0] == "at":
                     info[i] = {"periodic": False, "tp": int(t[1]), "kind": t[2][0]}
                 else:
@@ -603,46 +741,50 @@ def monitor_svc(c, impl):
         elif t[0] == "cancel":
             note_cancel(int(t[1]), head == "1")
         elif t[0] in ("wake", "release"):
-            evs = head[3:].split(",") if head.startswith("ev=") and head != "ev=-" else []
-            on_events(evs, clk)
-        elif t[0] == "drain" and head in ("d=wait", "d=ok", "d=timeout"):
-            horizon = clk + int(t[1]) * MS
-            for i, d in info.items():
-                if not d["periodic"] and starts.get(i, 0) == 0 and not cancelled_ok.get(i) and d["tp"] > horizon:
-                    swept.add(i)
-    # end of case (all gates were opened): cancel=false on the running service => the one-shot handler ran exactly once
+            if head.startswith("ev="):
+                evs = head[3:].split(",") if head != "ev=-" else []
+                on_events(evs, clk)
+                # a pass of the loop collects after epoll_wait (`wake`); with _running == false it collects again in the exit branch
+                # once the handlers of the pass are done (`wake`, or the `release` that ends the last gate of the pass)
+                if t[0] == "wake" or ("run=0" in ans.split() and not blocked):
+                    last_collect_clk = clk
+                    last_collect_idx = k
+        elif t[0] == "drain" and head in ("d=wait", "d=ok", "d=timeout", "d=parked") and int(t[1]) > 0:
+            sweep(int(t[1]), swept, swept_per)
+        elif t[0] == "stop" and head in ("s=drainwait", "s=join", "s=ok") and prev_life == "R":
+            sweep(5000, stop_swept, stop_swept)
+        if life == "S":
+            stop_returned = True      # Stopped is published by stop() just before it returns; events of this answer came before
+    # the recorded finding: schedules destroyed by a drain that timed out, on a service that is Running again
+    lost = [i for i in sorted(swept) if starts.get(i, 0) == 0 and not cancelled_ok.get(i)]
+    if lost_after_restore and (lost or [i for i in swept_per if not cancelled_ok.get(i)]):
+        bad.append("FC08a: drain(ms) swept %d one-shot timer(s) %s and marked %d periodic timer(s), timed out and put the service back to Running: "
+                   "they never fire and cancel() on them answers false" % (len(lost), lost[:5], len([i for i in swept_per if not cancelled_ok.get(i)])))
+    exempt = swept | stop_swept
+    # end of case (all gates were opened): cancel=false => the one-shot handler ran exactly once (unless a sweep or stop() took it)
     if not blocked:
         for i in cancel_false:
-            if not info[i]["periodic"] and not cancelled_ok.get(i) and i not in swept and starts.get(i, 0) != 1:
+            if not info[i]["periodic"] and not cancelled_ok.get(i) and i not in exempt and starts.get(i, 0) != 1:
                 bad.append("S3: cancel(%d) = false on a running service but the handler ran %d times (must be exactly once)" % (i, starts.get(i, 0)))
-        # nothing silently lost: a one-shot timer that is due at the last wake and was not cancelled has started
-        last_wake_clk = None
-        clk2 = 0
-        for op in c["ops"]:
-            t = op.split()
-            if t[0] == "clk":
-                clk2 = int(t[1])
-            elif t[0] == "wake":
-                last_wake_clk = clk2
-        if last_wake_clk is not None and "busy" not in impl:
+        # nothing silently lost: a one-shot timer that was due at the last pass of the loop and was not cancelled has started
+        if last_collect_clk is not None and "busy" not in impl:
             for i, d in info.items():
-                if not d["periodic"] and not cancelled_ok.get(i) and i not in swept and d["tp"] <= last_wake_clk and starts.get(i, 0) == 0:
-                    # scheduled after the last wake? then it is still legitimately pending
-                    sched_idx = [k for k, (o, a) in enumerate(zip(c["ops"], impl)) if o.startswith("at ") and a.split()[0] == str(i)][0]
-                    wake_idx = max(k for k, o in enumerate(c["ops"]) if o == "wake")
-                    if sched_idx < wake_idx:
-                        bad.append("S5: one-shot timer %d (time point %d) was due at the last collect (%d) and never started: silently lost" % (i, d["tp"], last_wake_clk))
+                if not d["periodic"] and not cancelled_ok.get(i) and i not in exempt and d["tp"] <= last_collect_clk and starts.get(i, 0) == 0 \
+                        and sched_idx[i] < last_collect_idx:
+                    bad.append("S5: one-shot timer %d (time point %d) was due at the last pass of the loop (%d) and never started: silently lost" % (i, d["tp"], last_collect_clk))
     return bad
 
 
 # ------------------------------------------------------------------ real-time part (safety monitors only)
 def rt_scenarios(rng, scale):
-    sc = [("f23", rng.below(10 ** 6), 0)]
-    for _ in range(8 * scale):
+    """one batch of real-time scenarios (all run concurrently in one harness process): kept small enough that 16 cores are not
+    oversubscribed by sanitizer-instrumented threads; the thorough tier runs several batches one after the other"""
+    sc = []
+    for _ in range(8):
         sc.append(("svc", rng.below(10 ** 6), 300))
-    for _ in range(4 * scale):
+    for _ in range(4):
         sc.append(("svcdrain", rng.below(10 ** 6), 250))
-    for _ in range(6 * scale):
+    for _ in range(6):
         sc.append(("wheel", rng.below(10 ** 6), 600))
     return sc
 
@@ -703,7 +845,10 @@ def monitor_rt(kind, text):
         if len(oks) > 1:
             bad.append("RT3: cancel(%d) answered true %d times" % (i, len(oks)))
         for c in oks:
-            margin = 1000000 if sc["per"] else 0     # periodic: the guard check precedes the handler body by a few instructions
+            # one-shot (service and wheel): exact - the decision is taken under the mutex, cancel = true excludes a later start.
+            # periodic: the guard is checked a few instructions before the handler body; a thread descheduled right there (sanitizer
+            # build, loaded machine) could start up to a scheduling quantum later: 5 ms, far below the >= 2 ms handlers that open the window
+            margin = 5000000 if sc["per"] else 0
             late = [ts for ts, te in runs if ts > c["tret"] + margin]
             if late:
                 bad.append("RT3: handler of timer %d starts %d ns after cancel(%d) returned true" % (i, late[0] - c["tret"], i))
@@ -721,7 +866,7 @@ def monitor_rt(kind, text):
                 bad.append("RT5: schedule() called after stop() returned was accepted (id %d): it can never fire" % i)
         stats["refused_after_stop"] = sum(1 for r in refused if r["tcall"] > t)
         # nothing silently lost while the service ran: generous slack (a watchdog, not a latency claim)
-        slack = (400 if kind == "wheel" else 150) * NS
+        slack = (800 if kind == "wheel" else 400) * NS
         horizon = min([stop[0]["tcall"]] + [d["tcall"] for d in drains])
         for i, sc in sched.items():
             if sc["per"] or i in H:
@@ -776,9 +921,14 @@ def replay(ctx):
     return 1 if still or ctx.violations else 0
 
 
+KNOWN = set()
+
+
 def run(ctx: Ctx):
     if ctx.replay:
         return replay(ctx)
+    KNOWN.clear()
+    KNOWN.update(known_keys())
     quick = ctx.tier == "quick"
     scale = 1 if quick else 20
     rng = ctx.rng
@@ -787,7 +937,7 @@ def run(ctx: Ctx):
     if ok_build:
         ctx.audit(MODULES, OBLIGATIONS)
         if not quick:
-            ctx.leanchecker(MODULES + ["IoraModel.Lemmas.TimingWheel", "IoraModel.Model.TimingWheel", "IoraModel.Lemmas.TimerService", "IoraModel.Lemmas.TimerHeap", "IoraModel.Model.TimerService"])
+            ctx.leanchecker(MODULES + ["IoraModel.Lemmas.TimingWheel", "IoraModel.Model.TimingWheel", "IoraModel.Lemmas.TimerService", "IoraModel.Lemmas.TimerHeap", "IoraModel.Lemmas.TimerDrain", "IoraModel.Model.TimerService"])
     else:
         ctx.cov["obligations"] = len(OBLIGATIONS)
     # the three harnesses are independent translation units: compile them side by side
@@ -821,6 +971,26 @@ def run(ctx: Ctx):
         cut["svc"] = run_phase(ctx, "tsvc", hs, cases, len(first), 400, monitor_svc, "service lockstep (harness/c08_svc.cpp vs Model/TimerService.lean)",
                                dist, rng, svc_stats, tot, lambda st: st["starts"] > 0)
         ctx.extra["svc_totals"] = tot
+    if hs and have_model:
+        # recorded finding FC08a: its witness must still reproduce on the real code AND be what the model (C08_S3b_refuted) predicts
+        wit = [c for c in load_corpus("svc") if c.get("finding") == "FC08a"]
+        if wit:
+            (wc, wimpl, wmodel), = ctx.lockstep("tsvc", hs, [dict(wit[0])], timeout=120)
+            reproduces = any(f.startswith("FC08a:") for f in monitor_svc(wc, wimpl))
+            predicted = any(f.startswith("FC08a:") for f in monitor_svc(wc, wmodel))
+            fc = ctx.extra.setdefault("finding_FC08a", {"cases_counted_under_it": 0, "example": None})
+            fc.update({"witness": wit[0]["ops"], "reproduces": reproduces, "model_predicts": predicted, "listed": FINDING_FC08A in KNOWN})
+            if reproduces and FINDING_FC08A in KNOWN:
+                ctx.known_lines.append("KNOWN-FINDING: property=C08 id=FC08a a drain(ms>0) that times out has already cancelled far-future one-shot timers and marked every "
+                                       "periodic timer, then restores Running+accepting: cancel() on them answers false and they never fire "
+                                       "(%d generated case(s) counted under it)" % fc["cases_counted_under_it"])
+            elif reproduces:
+                ctx.violation("property", "S3b: cancel = false on a Running service for a timer that never ran and never will: a drain(5) that timed out had swept it "
+                              "(finding FC08a is not listed in KNOWN_FINDINGS.txt)", {"ops": wit[0]["ops"], "observed": wimpl, "expected_by_model": wmodel}, found_input=True)
+            if reproduces != predicted:
+                ctx.violation("correspondence", "the recorded finding FC08a no longer matches the code (witness reproduces=%s, model predicts=%s): the refuted theorem "
+                              "C08_S3b_refuted no longer describes the source" % (reproduces, predicted),
+                              {"broken": {"correspondence": "FC08a witness", "detail": str(wimpl[-3:])}, "ops": wit[0]["ops"]}, found_input=False)
     ctx.extra["phases_cut_short"] = {k: v for k, v in cut.items() if v}
     if hr and any(cut.values()):
         # the deterministic phases already produced their failing inputs: on such a tree the real-time scenarios add minutes
@@ -828,30 +998,48 @@ def run(ctx: Ctx):
         ctx.extra["rt_skipped"] = "deterministic phases already reported violations with failing inputs"
         hr = None
     if hr:
-        sc = rt_scenarios(rng.fork("rt"), 1 if quick else 4)
-        t_rt = __import__("time").time()
-        out, rc, err = ctx.run_lines([hr], ["%s %d %d" % x for x in sc], timeout=90)
-        ctx.extra["rt_wall_s"] = round(__import__("time").time() - t_rt, 1)
         tot = {"scheduled": 0, "handlers": 0, "cancel_ok": 0, "refused_after_stop": 0}
-        if rc != 0 or len(out) != len(sc):
-            ctx.violation("property", "RT0: the real-time harness died (rc=%s, %d/%d scenarios): %s" % (rc, len(out), len(sc), err[-300:]),
-                          {"scenarios": sc, "stderr": err[-2000:]}, found_input=True)
-        for x, line in zip(sc, out):
-            head, _, text = line.partition(" | ")
-            fails, st = monitor_rt(x[0], text)
-            dist["rt-" + x[0]] = dist.get("rt-" + x[0], 0) + 1
-            for k in tot:
-                tot[k] += st.get(k, 0)
-            ctx.count_case("rt %s %d" % (x[0], x[1]), nontrivial=st.get("handlers", 0) > 0)
-            ctx.cov["traces_validated_against_impl"] += 1
-            if fails:
-                ctx.violation("property", fails[0], {"scenario": "%s %d %d" % x, "failures": fails[:6], "history": text[:20000],
-                                                     "how": "echo '%s %d %d' | <harness c08_rt>  (real time: re-run to re-validate)" % x}, found_input=True)
+        t_rt = __import__("time").time()
+        rr = rng.fork("rt")
+        batches = [[("f23", rr.below(10 ** 6), 0)] + rt_scenarios(rr, 1)] + [rt_scenarios(rr, 1) for _ in range(0 if quick else 3)]
+        for sc in batches:
+            out, rc, err = ctx.run_lines([hr], ["%s %d %d" % x for x in sc], timeout=90)
+            if rc != 0 or len(out) != len(sc):
+                ctx.violation("property", "RT0: the real-time harness died (rc=%s, %d/%d scenarios): %s" % (rc, len(out), len(sc), err[-300:]),
+                              {"scenarios": sc, "stderr": err[-2000:]}, found_input=True)
+            for x, line in zip(sc, out):
+                head, _, text = line.partition(" | ")
+                fails, st = monitor_rt(x[0], text)
+                dist["rt-" + x[0]] = dist.get("rt-" + x[0], 0) + 1
+                for k in tot:
+                    tot[k] += st.get(k, 0)
+                ctx.count_case("rt %s %d" % (x[0], x[1]), nontrivial=st.get("handlers", 0) > 0)
+                ctx.cov["traces_validated_against_impl"] += 1
+                if fails:
+                    ctx.violation("property", fails[0], {"scenario": "%s %d %d" % x, "failures": fails[:6], "history": text[:20000],
+                                                         "how": "echo '%s %d %d' | <harness c08_rt>  (real time: re-run to re-validate)" % x}, found_input=True)
+        ctx.extra["rt_wall_s"] = round(__import__("time").time() - t_rt, 1)
         ctx.extra["rt_totals"] = tot
+        if not quick:
+            # data races: the same scenarios under ThreadSanitizer (the lockstep harnesses are single-threaded by construction, and the
+            # Gen facts `wheelMutexSections` / `svcMutexSections` are syntactic): a removed or narrowed lock shows up here as a report
+            ht = ctx.build_harness("harness/c08_rt.cpp", name="c08_rt_tsan", sanitize=False, flags=["-fsanitize=thread", "-fno-omit-frame-pointer"])
+            if ht:
+                sc = [("svc", rr.below(10 ** 6), 300), ("svc", rr.below(10 ** 6), 300), ("svcdrain", rr.below(10 ** 6), 250), ("svcdrain", rr.below(10 ** 6), 250),
+                      ("wheel", rr.below(10 ** 6), 500), ("wheel", rr.below(10 ** 6), 500), ("wheel", rr.below(10 ** 6), 500)]
+                out, rc, err = ctx.run_lines([ht], ["%s %d %d" % x for x in sc], timeout=180, env={"TSAN_OPTIONS": "exitcode=66 halt_on_error=0 history_size=4"})
+                races = err.count("WARNING: ThreadSanitizer: data race")
+                ctx.extra["tsan"] = {"scenarios": len(sc), "data_race_reports": races, "rc": rc}
+                if races or rc not in (0,):
+                    first = err[err.find("WARNING: ThreadSanitizer"):][:1800] if races else err[-600:]
+                    ctx.violation("property", "RT7: ThreadSanitizer reports %d data race(s) in the timer code under concurrent schedule/cancel/reschedule/advance/drain/stop (rc=%s)" % (races, rc),
+                                  {"scenarios": ["%s %d %d" % x for x in sc], "report": first}, found_input=True)
     ctx.extra["input_distribution"] = dist
     ctx.extra["repo_tree_sha"] = ctx.repo_tree_sha(ANCHOR_FILES)
     ctx.extra["not_proved"] = [
         "W6 as a theorem about threads (the order stop()/drain(): flag, join, clear is a Gen obligation; that joining the tick thread ends all callbacks is std::thread semantics)",
+        "wheel liveness bound: an entry whose deadline has passed fires within one revolution of the top level (W1 is conservation only: it does not exclude an entry that stays pending for ever); checked on every lockstep case by the `overdue` monitor, not a theorem",
+        "S3b full clause for one-shot timers: REFUTED (C08_S3b_refuted, finding FC08a); proved without drain(ms>0) sweeps (C08_S3b_partial); for periodic timers the clause `will run exactly once` has no meaning and is not stated",
         "termination of collectDueLocked's loop for positive periodic intervals (S5b is conditional on the loop leaving by break/empty heap; the lockstep driver never ran out of fuel)",
         "real-time behaviour of timerfd/epoll/condition variables (measured by the real-time monitors, not proved)",
         "TimingWheel::reset()/restart, TimerService::reset()/start() after stop, SteadyTimer, TimerServicePool (delegates to per-service calls), a second concurrent stop()",
@@ -865,7 +1053,7 @@ def run(ctx: Ctx):
         "wheel lockstep: advance() is issued by the op list under an interposed CLOCK_MONOTONIC (the real start() runs, its tick thread is joined at once); the tick thread's own timing is exercised only in the real-time part",
         "service lockstep: the real loop thread is single-stepped by an interposed epoll_wait; timerfd/eventfd wake-ups are replaced by the op `wake`; drain(ms) runs on a helper thread whose timed wait is interposed and which re-evaluates predicate and (virtual) deadline after every op (a forced spurious wake-up), so completion / time-out / restore happen at op boundaries",
         "service model: the atomic steps are the `_mutex` sections (+ handler start/end); stop() is called by one thread at a time; the periodic cancel guard is checked atomically with the handler start",
-        "real-time part: safety monitors over measured steady-clock timestamps (call/return of schedule/cancel/stop, handler start/end); a periodic handler body may start up to 1 ms after cancel() returned (guard check precedes the body); RT6 (nothing lost) is a watchdog with 150/400 ms slack",
+        "real-time part: safety monitors over measured steady-clock timestamps (call/return of schedule/cancel/stop, handler start/end), at most 19 scenarios at a time; tolerances: none for one-shot timers of the service, one tick for the wheel (its contract), 5 ms between cancel() = true and the start of a PERIODIC handler body (the guard check precedes the body); RT6 (nothing lost) is a watchdog with 400/800 ms slack; thorough tier: the same scenarios under ThreadSanitizer",
     ]
     return ctx.finish(level="proof", rule="a case = one op list from `reset` (wheel or single-stepped service) or one real-time scenario; distinct = distinct op lists / scenario seeds; non-trivial = at least one timer fired / handler started")
 
@@ -922,6 +1110,17 @@ def judge(ctx, hbin, res, monitor, what, dist, rng, stats, tot, nontrivial, seen
             ctx.sample({"cat": c["cat"], "ops": c["ops"][:12], "impl": [l[:150] for l in impl[:12]]})
         fails = monitor(c, impl)
         mism = [(i, a, b) for i, (a, b) in enumerate(zip(impl, model)) if a != b]
+        # failures that fall under the recorded finding FC08a (hypothesis `noSweep` of C08_S3b_partial is false for the case): counted
+        # under the finding while it is listed, whatever else the case shows is still judged
+        hits = [f for f in fails if f.startswith("FC08a:")]
+        fails = [f for f in fails if not f.startswith("FC08a:")]
+        if hits:
+            fc = ctx.extra.setdefault("finding_FC08a", {"cases_counted_under_it": 0, "example": None})
+            fc["cases_counted_under_it"] += 1
+            if fc["example"] is None:
+                fc["example"] = {"ops": c["ops"], "what": hits[0][:300]}
+            if not mism and FINDING_FC08A not in KNOWN:
+                fails = ["S3b: " + hits[0][7:] + " (finding FC08a is not listed in KNOWN_FINDINGS.txt)"]
         if fails:
             cls = "property:" + fails[0].split(":")[0]
             seen[cls] = seen.get(cls, 0) + 1
